@@ -951,6 +951,7 @@ fn gen_c05(r: &mut Rng, t: Tier, job: u64) -> Plan {
                     ret_err: None,
                     probe_cells: false,
                     pull_params: None,
+                    pull_skip: 0,
                 }),
             },
         );
@@ -983,6 +984,7 @@ fn gen_c05(r: &mut Rng, t: Tier, job: u64) -> Plan {
                     ret_err: None,
                     probe_cells: false,
                     pull_params: None,
+                    pull_skip: 0,
                 }),
             },
         );
@@ -1058,6 +1060,7 @@ fn gen_c12(r: &mut Rng, _t: Tier, _job: u64) -> Plan {
                     ret_err: None,
                     probe_cells: false,
                     pull_params: None,
+                    pull_skip: 0,
                 }),
             },
         );
